@@ -247,9 +247,10 @@ def run(ctx):
                     'scipy spsolve / dense eigensolver (oracle only; no theorem speaks about them)']
     ctx.assumptions += ['values in a commutative ring with Leibniz equality (Z, any field); floats are corresponded only on '
                         'small integers where every operation is exact',
-                        'matrices have no duplicate stored entry inside a row (scipy canonical or unsorted, never unsummed) '
-                        'for enforce/penalize; condense needs no such assumption',
-                        'index sets are duplicate-free with entries in [0,n) (what DofsView.flatten / np.unique deliver)',
+                        'storage-level statements of enforce/penalize (which stored entry stays where) assume no duplicate stored entry '
+                        'inside a row; the dense-level theorems (C05_enforce_any_storage, C05_penalize_any_storage) and condense need no such assumption',
+                        'index lists have entries in [0,n); repeated entries denote a set (proved from the regenerated _flatten_dofs)',
+                        'non-CSR input enters the model through scipy tocsr (trusted, corresponded); dtype promotion of the expansion is runtime (oracle)',
                         'penalize is modelled with the weight w = 1/epsilon; the limit epsilon -> 0 is oracle only',
                         'mpc: S and M duplicate-free and disjoint, T with |S| rows, g of length |S| (what mpc checks or np.setdiff1d assumes)']
     ctx.cov['rule'] = ('random square CSR systems n=1..8 (thorough: ..12): empty rows, explicit zeros, unsorted columns, '
